@@ -36,7 +36,7 @@ ASSUMPTIONS = [
     "path components are matched case-sensitively",
 ]
 BUDGET = {"quick": (200, 4), "thorough": (64000, 16)}
-REQUIRED = ["glob", "dir_pattern", "basename", "relpath_pattern", "ii_file", "nested", "child_after_parent", "x_file_and_dir", "multi_generation", "duplicate_pattern", "verify_dh", "sf_generation"]
+REQUIRED = ["glob", "dir_pattern", "basename", "relpath_pattern", "ii_file", "nested", "child_after_parent", "x_file_and_dir", "multi_generation", "duplicate_pattern", "verify_dh", "sf_generation", "real_missing_next_to_excluded"]
 
 DEFAULTS = [".DS_Store", "ascmhl", "ascmhl/"]
 _first = "abcdefghijklmnopqrstuvwxyzABCDEXYZ0123456789_."
@@ -318,6 +318,28 @@ def run_case(scn, ctx):
             else:
                 res = getattr(w, cmd)("R")
             require(res.exc is None and res.exit_code == 0, "x-edits-" + cmd, "only excluded entries were edited/added/deleted but %s\n%s" % (res.brief(), res.output[-400:]), res)
+        # a recorded, non-excluded file really disappears: it - and only it - is reported missing, whatever excluded
+        # entries were recorded by earlier generations (before their pattern became effective) or deleted above
+        import re as _re
+
+        victims = [f for f in w.media_files("R") if not matches(f[2:], eff) and (("R", f) in w.first or any(k[1] == f for k in w.first))]
+        if victims:
+            victim = victims[scn["edits"] % len(victims)]
+            vh = w.deepest_root(victim, w.history_roots())
+            w.rm(victim)
+            for cmd in ("verify", "diff"):
+                res = getattr(w, cmd)("R")
+                require(res.exc is None and res.exit_code == 10, "missing-" + cmd, "recorded file %r removed: %s" % (victim[2:], res.brief()), res)
+                lines = res.output.splitlines()
+                block = None
+                for i, l in enumerate(lines):
+                    m = _re.match(r"^ERROR: (\d+) missing file\(s\):$", l)
+                    if m:
+                        block = {x[2:] for x in lines[i + 1 : i + 1 + int(m.group(1))]}
+                        extra_lines = [x for x in lines[i + 1 :] if x.startswith("  ")]
+                        require(len(extra_lines) == int(m.group(1)), "missing-listing", "%s announces %s missing file(s) but lists %r" % (cmd, m.group(1), extra_lines), res)
+                require(block == {victim[2:]}, "missing-listing", "%s lists %r as missing; only %r is missing and not excluded (patterns %r)" % (cmd, block, victim[2:], eff), res)
+            feats.add("real_missing_next_to_excluded")
         allp = [p for g in scn["gens"] for p in g["i"] + g["ii"]]
         if any("*" in p or "?" in p for p in allp):
             feats.add("glob")
